@@ -1,5 +1,6 @@
 import Driver.Util
 import Cutadapt.Qualtrim
+import Cutadapt.ExpectedErrors
 namespace Driver
 open Cutadapt Cutadapt.Qualtrim
 
@@ -22,6 +23,12 @@ def opsQual : List String → Option String
   | ["ncount", s] => do
     let s ← unhex s
     pure s!"{nCountBoth s}"
+  | ["ee", q, base] => do
+    let q ← unhex q; let base ← base.toNat?
+    if base > 255 then none else
+    match Cutadapt.ExpErr.expectedErrors base.toUInt8 q with
+    | none => pure "ValueError"
+    | some f => pure (bitsOfFloat f)
   | _ => none
 
 end Driver
